@@ -742,7 +742,8 @@ func (s *Store[H]) ensureInit(headers []H) {
 	}
 
 	if headPtr := s.contiguousHead.Load(); headPtr == nil {
-		head := headers[len(headers)-1]
+		// start from the first header, advanceHead then moves over what is contiguous with it
+		head := headers[0]
 		if s.contiguousHead.CompareAndSwap(headPtr, &head) {
 			s.heightSub.Init(head.Height())
 			log.Debugw("initialized head", "height", head.Height())
